@@ -682,18 +682,26 @@ def part_dispatch(ctx, rec, wb, drv, reps):
         ctx.count(("dispatch", sc.sid))
         if s is None:
             continue
-        path = "auto" if "wb qr " in out else ("simple" if ("wb qrsolve" in out or "wb mldivide" in out) else "trl")
+        msg = s.get("msg", "")
+        if "wb qr " in out or "not_enough_standards" in msg:
+            path = "auto"           # (solve_auto's own pre-check fails before the first QR)
+        elif "wb qrsolve" in out or "wb mldivide" in out or "insufficient_number" in msg:
+            path = "simple"
+        else:
+            path = "trl"
         lines.append("dispatch %s 2 2 %s %s %d %d %s" % (sc.typ, s["unk"], s["corr"], 1 if sc.meta["m_error"] else 0,
                                                          len(sc.std_cells), " ".join(" ".join(c) for c in sc.std_cells)))
         cases.append((sc, r, path))
-        if s["rc"] == 0 and sc.meta["variant"] != "reflect_two_unknowns":       # that one is not identifiable
+        if s["rc"] == 0 and sc.meta["variant"] != "reflect_two_unknowns" and sc.typ in G.EIGHT:
+            # (reflect_two_unknowns is not identifiable; three or four 2-port standards do not determine T16 / E12)
             pe, de = G.param_error(sc, r), G.dut_error(sc, r)
             pb, db = bounds(1e-6)
             if pe is None or pe > pb or de is None or de > db:
                 rec.add({"kind": "lm_param_error", "type": sc.typ, "weighted": sc.meta["m_error"], "family": "TRL-shaped " + sc.meta["variant"]},
                         "TRL-shaped calibration (%s, solver path %s): parameters off by %s, device off by %s"
                         % (sc.meta["variant"], path, pe, de), sc, r)
-        elif s["rc"] != 0 and sc.meta["variant"] != "reflect_two_unknowns":
+        elif s["rc"] != 0 and sc.meta["variant"] not in ("reflect_two_unknowns", "trl_with_merror") and sc.typ in G.EIGHT:
+            # (three 2-port standards do not determine T16 / E12; weighted runs may fail to converge)
             rec.add({"kind": "lm_failed", "type": sc.typ, "why": "TRL-shaped " + sc.meta["variant"]},
                     "TRL-shaped calibration (%s) not solved: %s" % (sc.meta["variant"], s.get("msg")), sc, r)
     q = None
